@@ -519,5 +519,44 @@ impl Process for TextProcess {
 //@@ endfn
 }
 
+// ------------------------------------------------------------------ OutputOptions::get_processor (C18: option/style consistency)
+//@@ item src/output_style.rs :: enum OutputStyle
+//@@ keep-derive Clone Copy
+//@@ enditem
+//@@ item src/output_style.rs :: struct OutputOptions
+//@@ rewrite pub_fields
+//@@ enditem
+//@@ item src/output_style.rs :: enum OutputStyleValidationError
+//@@ enditem
+// constructors of the text printer: not under contract (escape-map construction slices strings by bytes)
+impl TextOutputOptions {
+    #[verifier::external_body]
+    fn csv() -> (r: Self) ensures r.headers { unimplemented!() }
+}
+impl Default for TextOutputOptions { #[verifier::external_body] fn default() -> Self { unimplemented!() } }
+impl Default for JsonOutputOptions { #[verifier::external_body] fn default() -> Self { unimplemented!() } }
+impl Clone for TextOutputOptions { #[verifier::external_body] fn clone(&self) -> (r: Self) ensures r == *self { unimplemented!() } }
+impl Clone for JsonOutputOptions { #[verifier::external_body] fn clone(&self) -> (r: Self) ensures r == *self { unimplemented!() } }
+impl TextProcess {
+    #[verifier::external_body]
+    fn new(writer: vio::Out, line_seperator: String, options: TextOutputOptions) -> (r: Self) { unimplemented!() }
+}
+
+impl OutputOptions {
+//@@ fn print.get_processor = src/output_style.rs :: impl OutputOptions :: fn get_processor
+//@@ safety C18 C03
+//@@ ret r
+//@@ rewrite dyn_write
+//@@ header
+        ensures
+            // options that do not belong to the chosen style are rejected (before anything is built, read or written)
+            (self.output_style is Csv && (self.json_options is Some || self.text_options is Some)) ==> r is Err, // @obl PRINT.get_processor.csv : C18
+            (self.output_style is Text && self.json_options is Some) ==> r is Err, // @obl PRINT.get_processor.text : C18
+            (self.output_style is Json && self.text_options is Some) ==> r is Err, // @obl PRINT.get_processor.json : C18
+            // every printer is an eager sink (what unit GO assumes about the terminal stage)
+            r is Ok ==> r->Ok_0.inv() && r->Ok_0.eager() && !r->Ok_0.must_break(), // @obl PRINT.get_processor.eager : C03 C09
+//@@ endfn
+}
+
 } // verus!
 fn main() {}
